@@ -212,8 +212,8 @@ theorem yaml_contract (lower : Str → Str) (loads : Str → Except Unit JVal) (
       | .ok v => if v.kind = .null then .skip
                  else if v.kind = .map ∨ v.kind = .seq then .data v none else .parseError := by
   cases h : loads (joinNl (content.filter (fun l => !(yamlIgnored lower ignore l)))) with
-  | error e => simp [yamlParse, h]
-  | ok v => obtain ⟨k, r⟩ := v; cases k <;> simp [yamlParse, h]
+  | error e => simp [yamlParse, yamlOutcome, h]
+  | ok v => obtain ⟨k, r⟩ := v; cases k <;> simp [yamlParse, yamlOutcome, h]
 
 /-- for YAML the full statement holds: data is always a mapping or a sequence -/
 theorem yaml_rejects_non_container (lower : Str → Str) (loads : Str → Except Unit JVal) (ignore : List Str)
@@ -229,6 +229,30 @@ theorem yaml_rejects_non_container (lower : Str → Str) (loads : Str → Except
       · simp only [h1, h2, ↓reduceIte, DocOutcome.data.injEq] at h
         rw [← h.1]; exact h2
       · simp [h1, h2] at h
+
+/-- string content (the `else:` branch): the same outcomes on the text as it is; in particular EVERY failure of
+the library — `loads` returns `.error` for any exception type (YAMLError, ValueError, AttributeError, KeyError,
+RecursionError …) — is a parse error -/
+theorem yaml_str_contract (loads : Str → Except Unit JVal) (content : Str) :
+    yamlParseStr loads content =
+      match loads content with
+      | .error _ => .parseError
+      | .ok v => if v.kind = .null then .skip
+                 else if v.kind = .map ∨ v.kind = .seq then .data v none else .parseError := by
+  cases h : loads content with
+  | error e => simp [yamlParseStr, yamlOutcome, h]
+  | ok v => obtain ⟨k, r⟩ := v; cases k <;> simp [yamlParseStr, yamlOutcome, h]
+
+/-- a library failure of ANY kind is a parse error, for list and for string content -/
+theorem yaml_failure_is_parse_error (lower : Str → Str) (loads : Str → Except Unit JVal) (ignore : List Str)
+    (content : List Line) (text : Str)
+    (h1 : loads (joinNl (content.filter (fun l => !(yamlIgnored lower ignore l)))) = .error ())
+    (h2 : loads text = .error ()) :
+    yamlParse lower loads ignore content = .parseError ∧ yamlParseStr loads text = .parseError := by
+  rw [yaml_contract, yaml_str_contract, h1, h2]
+  exact ⟨rfl, rfl⟩
+
+example : yamlParseStr (fun _ => .error ()) "date: 2019-02-30".toList = .parseError := by decide
 
 /-- without `ignore_lines` every line is loaded -/
 theorem yaml_no_ignore (lower : Str → Str) (content : List Line) :
